@@ -8,9 +8,14 @@ def plan(quick, thorough):
     return {"quick": quick, "thorough": thorough}
 
 
-def std(quick_parts=16, thorough_extra=None):
-    q = [dict(cfg="asan", parts=quick_parts)]
-    t = [dict(cfg="asan", parts=16, tier="quick"), dict(cfg="plain", parts=16)]
+# every property's multi-threaded cases are additionally run in the ThreadSanitizer build (mode "conc": only the cases whose
+# key names threads / concurrency execute): a data race is then reported whether or not the threads happened to collide
+CONC = dict(cfg="tsan", parts=4, mode="conc", timeout=1800)
+
+
+def std(quick_parts=16, thorough_extra=None, conc=True):
+    q = [dict(cfg="asan", parts=quick_parts)] + ([dict(CONC)] if conc else [])
+    t = [dict(cfg="asan", parts=16, tier="quick"), dict(cfg="plain", parts=16)] + ([dict(CONC, parts=8)] if conc else [])
     if thorough_extra:
         t += thorough_extra
     return plan(q, t)
@@ -125,8 +130,8 @@ PROPS = {
     ),
     "C06": dict(
         technique='runtime monitoring: long-double FFT oracle validated by float128 Horner evaluation, every m and implementation incl. assembly leaves, bitwise repeat + table hash, ASan+UBSan (+memcheck in thorough)',
-        runs=plan([dict(cfg="asan", parts=16)],
-                  [dict(cfg="asan", parts=16, tier="quick"), dict(cfg="plain", parts=16),
+        runs=plan([dict(cfg="asan", parts=16), dict(CONC)],
+                  [dict(cfg="asan", parts=16, tier="quick"), dict(cfg="plain", parts=16), dict(CONC, parts=8),
                    dict(cfg="plain", parts=8, tier="quick", mode="memcheck",
                         wrapper=["valgrind", "-q", "--error-exitcode=97", "--errors-for-leak-kinds=none"], timeout=3600)]),
         rule=("case = (layout reim|cplx, fft|ifft, implementation, m, input family, repetition); each case runs the "
